@@ -3,7 +3,7 @@
 From Coq Require Import List String NArith Bool.
 From FIM Require Import Base.Str Model.Sliver2Kinds Gen.PropMap Model.Sliver2Map Model.Sliver2WF
   Model.Sliver2Deep Model.Sliver2DeepWF Model.Sliver2Graph
-  Model.Sliver2GraphWF Proofs.Sliver2Assoc Proofs.Sliver2MapRT Proofs.Sliver2Elem Proofs.Sliver2DeepRT
+  Model.Sliver2GraphWF Proofs.Sliver2Assoc Proofs.Sliver2MapRT Proofs.Sliver2Elem Proofs.Sliver2Multi Proofs.Sliver2DeepRT
   Proofs.Sliver2GraphW Proofs.Sliver2GraphR Proofs.Sliver2GraphRT.
 Import ListNotations.
 
@@ -42,7 +42,11 @@ Proof. vm_compute. reflexivity. Qed.
 (* unsetting reads None for every mapped settable property *)
 Definition unset_none_entry (k : kind) (kw : string) : bool :=
   match settable k kw, alookup kw sliver_property_to_graph with
-  | Some x, Some _ => match unset_reads k x with None => true | Some _ => false end
+  | Some x, Some _ => match unset_reads k x with
+                      | None => true
+                      | Some (FBool false) => String.eqb kw "stitch_node"   (* a flag reads its default *)
+                      | Some _ => false
+                      end
   | _, _ => true
   end.
 Lemma unset_none_all_true : forallb (fun k => forallb (unset_none_entry k) (setter_keywords k)) all_kinds = true.
@@ -85,17 +89,75 @@ Theorem json_roundtrip t :
   tree_wf t = true -> bind (sliver_to_json t) (sliver_from_json (t_kind t)) = Ok (forget_ids t).
 Proof. apply json_roundtrip_generic. exact all_tables_ok_true. Qed.
 
+Theorem graph_under g parent t :
+  good_graph g = true -> graph_wf_sub t = true -> fresh_in g t = true -> parent_ok g parent t = true ->
+  exists g', add_under g parent t = Ok g' /\
+    build_deep g' (t_kind t) (id_of t) = Ok t /\
+    good_graph g' = true /\
+    gids g' = gids g ++ map id_of (subtrees t) /\
+    (forall x, In x (gids g) -> find_node g' x = find_node g x) /\
+    (forall x rel L, In x (gids g) -> parent <> Some x ->
+                     get_first_neighbor g' x rel L = get_first_neighbor g x rel L).
+Proof. apply graph_under_generic; [exact all_tables_ok_true | exact add_interface_descends_true]. Qed.
+
 Theorem graph_roundtrip_thm t : graph_wf t = true -> graph_roundtrip t = Ok t.
 Proof. apply graph_roundtrip_generic; [exact all_tables_ok_true | exact add_interface_descends_true]. Qed.
 
+(* Node.set_property / set_properties do not complete a lone image_ref / image_type from the graph
+   (they will once proposed fix C02-4 lands: the regenerated flag turns true and the model follows) *)
+Lemma node_completes_false : node_completes_image_pair = false.
+Proof. reflexivity. Qed.
+
+Theorem set_properties_get k l l' d :
+  completed_kvs node_completes_image_pair k l d = Ok l' ->
+  kws_ok k l' = true -> values_ok k l' = true -> readable k d = true ->
+  exists d', set_properties k l d = Ok d' /\ readable k d' = true /\
+    (forall p v x, In (p, Some v) l' -> settable k p = Some x -> get_property k p d' = Ok (stored k p v)) /\
+    (forall q y, settable k q = Some y -> ~ In y (kw_targets k l') -> aget y (blank k) = None ->
+                 always_written k y = false -> get_property k q d' = get_property k q d).
+Proof. intros Hc Hkw Hv Hr. exact (multi_get _ k l l' d (sym k) Hc Hkw Hv Hr). Qed.
+
+Theorem set_properties_order k l l2 d d1 :
+  completed_kvs node_completes_image_pair k l d = Ok l ->
+  completed_kvs node_completes_image_pair k l2 d = Ok l2 ->
+  kws_ok k l = true -> Permutation.Permutation l l2 ->
+  set_properties k l d = Ok d1 -> set_properties k l2 d = Ok d1.
+Proof. unfold set_properties. apply multi_perm. Qed.
+
+(* the keywords set one after the other with set_property *)
+Definition set_each_actual := set_each node_completes_image_pair.
+
+Theorem set_properties_is_fold k (l : list (string * fval)) d :
+  forallb (kw_plain k) l = true -> kws_ok k (opt_kvs l) = true -> values_ok k (opt_kvs l) = true ->
+  readable k d = true ->
+  exists df dm, set_each_actual k l d = Ok df /\ set_properties k (opt_kvs l) d = Ok dm /\
+    forall q y, settable k q = Some y -> aget y (blank k) = None -> always_written k y = false ->
+                get_property k q df = get_property k q dm.
+Proof. unfold set_each_actual, set_properties. apply multi_is_fold. apply sym. Qed.
+
 Theorem set_get k p v d x :
-  settable k p = Some x -> single_written k x = true -> value_ok k p v = true -> readable k d = true ->
+  settable k p = Some x -> value_ok k p v = true -> readable k d = true ->
   exists d', set_property k p (Some v) d = Ok d' /\ get_property k p d' = Ok (stored k p v).
 Proof.
-  intros Hset Hsw Hv Hr. unfold single_written in Hsw.
-  destruct (to_for k x) as [[g [e|x0]]|] eqn:E; try discriminate.
-  eapply (set_get_generic k p v d x g e (sym k) Hset E); try assumption.
-  intros y Hy. subst e. discriminate.
+  intros Hset Hv Hr.
+  assert (Hc : completed_kvs node_completes_image_pair k [(p, Some v)] d = Ok [(p, Some v)])
+    by (rewrite node_completes_false; reflexivity).
+  destruct (set_properties_get k _ _ d Hc (kws_ok_single k p v x Hset) Hv Hr) as [d' [H1 [_ [H2 _]]]].
+  exists d'. split; [exact H1|]. apply (H2 p v x (or_introl eq_refl) Hset).
+Qed.
+
+(* frame: setting p leaves every other settable property (but the always-rewritten flag) as it was *)
+Theorem set_frame k p v d x q y :
+  settable k p = Some x -> value_ok k p v = true -> readable k d = true ->
+  settable k q = Some y -> y <> x -> aget y (blank k) = None -> always_written k y = false ->
+  exists d', set_property k p (Some v) d = Ok d' /\ get_property k q d' = get_property k q d.
+Proof.
+  intros Hset Hv Hr Hq Hne Hb Ha.
+  assert (Hc : completed_kvs node_completes_image_pair k [(p, Some v)] d = Ok [(p, Some v)])
+    by (rewrite node_completes_false; reflexivity).
+  destruct (set_properties_get k _ _ d Hc (kws_ok_single k p v x Hset) Hv Hr) as [d' [H1 [_ [_ H3]]]].
+  exists d'. split; [exact H1|]. apply (H3 q y Hq); try assumption.
+  rewrite (kw_targets_cons k p (Some v) [] x Hset). intros [E|[]]. apply Hne. symmetry. exact E.
 Qed.
 
 Lemma stored_argument k p v : stores_argument k p = true -> value_ok k p v = true -> stored k p v = Some v.
@@ -113,11 +175,11 @@ Proof.
 Qed.
 
 Theorem set_get_same k p v d x :
-  settable k p = Some x -> single_written k x = true -> stores_argument k p = true ->
+  settable k p = Some x -> stores_argument k p = true ->
   value_ok k p v = true -> readable k d = true ->
   exists d', set_property k p (Some v) d = Ok d' /\ get_property k p d' = Ok (Some v).
 Proof.
-  intros Hset Hsw Hsa Hv Hr. destruct (set_get k p v d x Hset Hsw Hv Hr) as [d' [H1 H2]].
+  intros Hset Hsa Hv Hr. destruct (set_get k p v d x Hset Hv Hr) as [d' [H1 H2]].
   exists d'. split; [exact H1|]. rewrite H2. rewrite (stored_argument k p v Hsa Hv). reflexivity.
 Qed.
 
@@ -131,35 +193,38 @@ Proof.
 Qed.
 
 Lemma unset_reads_none k p x g :
-  settable k p = Some x -> alookup p sliver_property_to_graph = Some g -> unset_reads k x = None.
+  settable k p = Some x -> alookup p sliver_property_to_graph = Some g ->
+  String.eqb p "stitch_node" = false -> unset_reads k x = None.
 Proof.
-  intros Hset Hmap.
+  intros Hset Hmap Hns.
   assert (H := unset_none_all_true). rewrite forallb_forall in H. specialize (H k (in_all_kinds k)).
   rewrite forallb_forall in H. specialize (H p (settable_is_setter k p x Hset)).
   unfold unset_none_entry in H. rewrite Hset, Hmap in H.
-  destruct (unset_reads k x); [discriminate | reflexivity].
+  destruct (unset_reads k x) as [[ | | | | |[|]| ]|]; try discriminate H; try reflexivity.
+  rewrite Hns in H. discriminate H.
 Qed.
 
-(* unset makes the property read as absent *)
+(* unset makes the property read as absent (a boolean flag, once it has an unset mapping, reads its
+   default False: C02_unset_get gives the exact value) *)
 Theorem unset_get_absent k p d x g :
   settable k p = Some x -> alookup p sliver_property_to_graph = Some g ->
-  mem g no_unset_properties = false -> readable k d = true ->
+  mem g no_unset_properties = false -> readable k d = true -> String.eqb p "stitch_node" = false ->
   exists d', set_property k p None d = Ok d' /\ get_property k p d' = Ok None.
 Proof.
-  intros Hset Hmap Hnu Hr. destruct (unset_get k p d x g Hset Hmap Hnu Hr) as [d' [H1 H2]].
-  exists d'. split; [exact H1|]. rewrite H2. rewrite (unset_reads_none k p x g Hset Hmap). reflexivity.
+  intros Hset Hmap Hnu Hr Hns. destruct (unset_get k p d x g Hset Hmap Hnu Hr) as [d' [H1 H2]].
+  exists d'. split; [exact H1|]. rewrite H2. rewrite (unset_reads_none k p x g Hset Hmap Hns). reflexivity.
 Qed.
 
 (* documented: name and type (NO_UNSET_PROPERTIES) are refused loudly *)
 Theorem unset_refused k p d g :
   alookup p sliver_property_to_graph = Some g -> mem g no_unset_properties = true ->
   set_property k p None d = Err ExQuery.
-Proof. intros H1 H2. unfold set_property, unset_property. rewrite H1, H2. reflexivity. Qed.
+Proof. intros H1 H2. unfold set_property, set_property_with, unset_property. rewrite H1, H2. reflexivity. Qed.
 
 (* a property without an unset mapping: unset is a silent no-op *)
 Theorem unset_unmapped_noop k p d :
   alookup p sliver_property_to_graph = None -> set_property k p None d = Ok d.
-Proof. intro H. unfold set_property, unset_property. rewrite H. reflexivity. Qed.
+Proof. intro H. unfold set_property, set_property_with, unset_property. rewrite H. reflexivity. Qed.
 
 (* ---------- witnesses ---------- *)
 Definition w_name (s : string) : option fval := Some (FStr (of_string s)).
@@ -188,11 +253,31 @@ Definition w_service_props : props :=
   [("GraphID", Some (S"g")); ("NodeID", Some (S"s1")); ("Name", Some (S"s1")); ("Type", Some (S"L2Bridge"));
    ("StitchNode", Some (S"false")); ("Gateway", Some (S"{""ipv4"": ""10.0.0.1"", ""ipv4_subnet"": ""10.0.0.0/24""}"))]%string.
 
+Lemma stitch_fold_refuted :
+  exists df dm,
+    set_each_actual KNode [("stitch_node", FBool true); ("site", FStr (S"UKY"))]%string w_node_props = Ok df /\
+    set_properties KNode [("stitch_node", Some (FBool true)); ("site", Some (FStr (S"UKY")))]%string w_node_props = Ok dm /\
+    get_property KNode "stitch_node" df = Ok (Some (FBool false)) /\
+    get_property KNode "stitch_node" dm = Ok (Some (FBool true)).
+Proof. eexists. eexists. split; [|split; [|split]]; vm_compute; reflexivity. Qed.
+
 Lemma image_ref_alone_refuted :
+  value_ok KNode "image_ref" (FStr (S"img")) = false /\
   readable KNode w_node_props = true /\
   exists d', set_property KNode "image_ref" (Some (FStr (S"img"))) w_node_props = Ok d' /\
              get_property KNode "image_ref" d' = Ok None.
-Proof. split; [vm_compute; reflexivity|]. eexists. split; vm_compute; reflexivity. Qed.
+Proof. split; [vm_compute; reflexivity|]. split; [vm_compute; reflexivity|]. eexists. split; vm_compute; reflexivity. Qed.
+
+(* the model of proposed fix C02-4 (completion flag true): a lone half is completed from the graph,
+   and refused when the graph has no other half *)
+Definition w_node_img_props : props := w_node_props ++ [("ImageRef", Some (S"img,qcow2"))]%string.
+
+Lemma completion_example :
+  (exists d', set_property_with true KNode "image_ref" (Some (FStr (S"img2"))) w_node_img_props = Ok d' /\
+              get_property KNode "image_ref" d' = Ok (Some (FStr (S"img2"))) /\
+              get_property KNode "image_type" d' = Ok (Some (FStr (S"qcow2")))) /\
+  set_property_with true KNode "image_ref" (Some (FStr (S"img2"))) w_node_props = Err ExOther.
+Proof. split; [eexists; split; [|split]|]; vm_compute; reflexivity. Qed.
 
 Lemma image_pair_example :
   exists d', set_properties KNode [("image_ref", Some (FStr (S"img"))); ("image_type", Some (FStr (S"qcow2")))]%string
@@ -224,6 +309,25 @@ Definition w_port := w_sl KInterface "i1" "p1" "DedicatedPort" "InterfaceType" N
 Definition w_ns := w_sl KService "s1" "ns1" "OVS" "ServiceType" None None (Some [w_port]).
 Definition w_comp := w_sl KComponent "c1" "nic1" "SmartNIC" "ComponentType" None (Some [w_ns]) None.
 Definition w_tree := w_sl KNode "n1" "node1" "Server" "NodeType" (Some [w_comp]) None None.
+
+(* a second component, with a service and a port, added under the node of a graph that already holds w_tree *)
+Definition w_port2 := w_sl KInterface "i9" "p9" "TrunkPort" "InterfaceType" None None None.
+Definition w_ns2 := w_sl KService "s9" "ns9" "OVS" "ServiceType" None None (Some [w_port2]).
+Definition w_comp2 := w_sl KComponent "c9" "nic9" "SharedNIC" "ComponentType" None (Some [w_ns2]) None.
+Definition w_graph1 : graph := match add_sliver empty_graph w_tree with Ok g => g | Err _ => empty_graph end.
+
+Lemma graph_under_example :
+  good_graph w_graph1 = true /\ graph_wf_sub w_comp2 = true /\ fresh_in w_graph1 w_comp2 = true /\
+  parent_ok w_graph1 (Some (S"n1")) w_comp2 = true /\ List.length (g_nodes w_graph1) = 5%nat /\
+  exists g2, add_under w_graph1 (Some (S"n1")) w_comp2 = Ok g2 /\
+    build_deep g2 KComponent (S"c9") = Ok w_comp2 /\
+    get_first_neighbor g2 (S"n1") rel_has (class_label KComponent) = Ok [S"c1"; S"c9"] /\
+    build_deep g2 KComponent (S"c1") = Ok w_comp.
+Proof.
+  split; [vm_compute; reflexivity|]. split; [vm_compute; reflexivity|]. split; [vm_compute; reflexivity|].
+  split; [vm_compute; reflexivity|]. split; [vm_compute; reflexivity|].
+  eexists. split; [vm_compute; reflexivity|]. split; [vm_compute; reflexivity|]. split; vm_compute; reflexivity.
+Qed.
 
 Lemma graph_example :
   graph_wf w_tree = true /\ graph_roundtrip w_tree = Ok w_tree /\ List.length (subtrees w_tree) = 5%nat.
